@@ -391,155 +391,222 @@ def sn_invariant(ctx, repo, pci):
             return f"self.{e.attr}"
         return None
 
+    def targets_of(x):
+        ts = x.targets if isinstance(x, _ast.Assign) else [x.target]
+        out = []
+        for t in ts:
+            out += list(t.elts) if isinstance(t, (_ast.Tuple, _ast.List)) else [t]
+        return out
+
+    def analyse(fi, ci, env0, depth=0):
+        """interval flow through one method from env0: (exits [(line, env)], returned value intervals [Iv | None])"""
+        fold = lambda e: repo.fold_expr(e, fi.module, ci)
+        exits, rets = [], []
+
+        def callee_of(call):
+            """a call of a method of the same class (self.m / cls.m / Class.m) or of a function of the same module"""
+            f = call.func
+            if isinstance(f, _ast.Attribute) and isinstance(f.value, _ast.Name) and (f.value.id in ("self", "cls") or f.value.id == ci.name):
+                m = repo.find_method(ci, f.attr)
+                return (m, ci) if m is not None else None
+            if isinstance(f, _ast.Name) and f.id in fi.module.functions:
+                return fi.module.functions[f.id], None
+            return None
+
+        def ev(e, env):
+            if isinstance(e, _ast.Call) and not e.keywords and callee_of(e) is not None and depth < 3:
+                callee, cci = callee_of(e)
+                params = [a.arg for a in callee.node.args.posonlyargs + callee.node.args.args]
+                if callee.kind in ("method", "classmethod") and cci is not None:
+                    params = params[1:]
+                if len(params) != len(e.args) or callee.node.args.vararg or callee.node.args.kwarg:
+                    raise AnalysisError(f"{fi.qualname}:{e.lineno}: call of {callee.qualname} with defaults / variadic arguments not analysable over intervals")
+                cenv = {p_: ev(a, env) for p_, a in zip(params, e.args)}
+                if SN in env:
+                    cenv[SN] = env[SN]
+                _, crets = analyse(callee, cci if cci is not None else ci, cenv, depth + 1)
+                if not crets or any(r is None for r in crets):
+                    raise AnalysisError(f"{fi.qualname}:{e.lineno}: the value returned by {callee.qualname} is not analysable over intervals")
+                out = crets[0]
+                for r in crets[1:]:
+                    out = out.join(r)
+                return out
+            return expr_interval(fi, e, env, fold=fold)
+
+        def refine(test, env, truth):
+            """env restricted to the outcome `truth` of a comparison of a tracked value with a constant (else unchanged)"""
+            if isinstance(test, _ast.UnaryOp) and isinstance(test.op, _ast.Not):
+                return refine(test.operand, env, not truth)
+            parts = None
+            if isinstance(test, _ast.Compare) and len(test.ops) > 1:     # a <= x < b  ==  (a <= x) and (x < b)
+                seq = [test.left] + list(test.comparators)
+                parts, conj = [_ast.copy_location(_ast.Compare(left=seq[i], ops=[test.ops[i]], comparators=[seq[i + 1]]), test) for i in range(len(test.ops))], True
+            elif isinstance(test, _ast.BoolOp):
+                parts, conj = list(test.values), isinstance(test.op, _ast.And)
+            if parts is not None:
+                if conj == truth:          # all parts have the outcome `truth`
+                    for p_ in parts:
+                        env = refine(p_, env, truth)
+                        if env is None:
+                            return None
+                    return env
+                outs = [refine(p_, env, truth) for p_ in parts]   # at least one part has it
+                outs = [o for o in outs if o is not None]
+                if not outs:
+                    return None
+                res = {k: v for k, v in outs[0].items() if all(k in o for o in outs)}
+                for o in outs[1:]:
+                    res = {k: res[k].join(o[k]) for k in res}
+                return res
+            if isinstance(test, _ast.Compare) and len(test.ops) == 1:
+                l, r, op = test.left, test.comparators[0], test.ops[0]
+                k = key_of(l)
+                flip = False
+                if k is None or k not in env:
+                    k, l, r, flip = key_of(r), r, l, True
+                if k is not None and k in env:
+                    try:
+                        c = ev(r, env)
+                    except AnalysisError:
+                        return env
+                    if c.lo != c.hi:
+                        return env
+                    c = c.lo
+                    name = type(op).__name__
+                    if flip:
+                        name = {"Gt": "Lt", "GtE": "LtE", "Lt": "Gt", "LtE": "GtE"}.get(name, name)
+                    if not truth:
+                        name = {"Gt": "LtE", "GtE": "Lt", "Lt": "GtE", "LtE": "Gt", "Eq": "NotEq", "NotEq": "Eq"}.get(name, name)
+                    cur = env[k]
+                    lo, hi = cur.lo, cur.hi
+                    if name == "Gt":
+                        lo = max(lo, c + 1)
+                    elif name == "GtE":
+                        lo = max(lo, c)
+                    elif name == "Lt":
+                        hi = min(hi, c - 1)
+                    elif name == "LtE":
+                        hi = min(hi, c)
+                    elif name == "Eq":
+                        lo, hi = max(lo, c), min(hi, c)
+                    elif name == "NotEq":
+                        if lo == c:
+                            lo += 1
+                        if hi == c:
+                            hi -= 1
+                    if lo > hi:
+                        return None          # this outcome is impossible here
+                    env = dict(env)
+                    env[k] = Iv(lo, hi)
+            return env
+
+
+        def store(env, t, compute):
+            k = key_of(t)
+            if k is None:
+                return env
+            env = dict(env)
+            try:
+                env[k] = compute()
+            except AnalysisError:
+                if k == SN:
+                    raise
+                env.pop(k, None)
+            return env
+
+        def flow(stmts, env):
+            """env after the statements (None when every path has left the method)"""
+            for st_ in stmts:
+                if env is None:
+                    return None
+                if isinstance(st_, (_ast.Assign, _ast.AnnAssign)) and getattr(st_, "value", None) is not None:
+                    for t in (st_.targets if isinstance(st_, _ast.Assign) else [st_.target]):
+                        if isinstance(t, (_ast.Tuple, _ast.List)):
+                            v = st_.value
+                            if isinstance(v, _ast.Call) and isinstance(v.func, _ast.Name) and v.func.id == "divmod" and len(v.args) == 2 and len(t.elts) == 2 and not v.keywords:
+                                parts = [_ast.BinOp(left=v.args[0], op=_ast.FloorDiv(), right=v.args[1]), _ast.BinOp(left=v.args[0], op=_ast.Mod(), right=v.args[1])]
+                            elif isinstance(v, (_ast.Tuple, _ast.List)) and len(v.elts) == len(t.elts):
+                                parts = list(v.elts)
+                            else:
+                                if any(key_of(x) == SN for x in t.elts):
+                                    raise AnalysisError(f"{fi.qualname}:{st_.lineno}: the sequence number is unpacked from a value that is not analysable over intervals")
+                                env = dict(env)
+                                for x in t.elts:
+                                    env.pop(key_of(x), None)
+                                continue
+                            for p_ in parts:
+                                _ast.copy_location(p_, st_)
+                                _ast.fix_missing_locations(p_)
+                            before = env                       # the right-hand side is evaluated before any target is bound
+                            for x, p_ in zip(t.elts, parts):
+                                env = store(env, x, lambda p_=p_: ev(p_, before))
+                        else:
+                            env = store(env, t, lambda: ev(st_.value, env))
+                elif isinstance(st_, _ast.AugAssign):
+                    k = key_of(st_.target)
+                    if k is not None:
+                        val = _ast.BinOp(left=_ast.copy_location(_ast.Attribute(value=_ast.Name(id="self", ctx=_ast.Load()), attr=k[5:], ctx=_ast.Load()), st_) if k.startswith("self.") else _ast.Name(id=k, ctx=_ast.Load()),
+                                         op=st_.op, right=st_.value)
+                        _ast.copy_location(val, st_)
+                        _ast.fix_missing_locations(val)
+                        env = store(env, st_.target, lambda: ev(val, env))
+                elif isinstance(st_, _ast.If):
+                    e1 = refine(st_.test, env, True)
+                    e2 = refine(st_.test, env, False)
+                    o1 = flow(st_.body, e1) if e1 is not None else None
+                    o2 = flow(st_.orelse, e2) if e2 is not None else None
+                    if o1 is None or o2 is None:
+                        env = o1 if o2 is None else o2
+                    else:
+                        env = {k: o1[k].join(o2[k]) for k in o1 if k in o2}
+                elif isinstance(st_, (_ast.For, _ast.While, _ast.AsyncFor)):
+                    if any(key_of(t) == SN for x in _ast.walk(st_) if isinstance(x, (_ast.Assign, _ast.AnnAssign, _ast.AugAssign)) for t in targets_of(x)):
+                        raise AnalysisError(f"{fi.qualname}: the sequence number is assigned inside a loop (no interval fixpoint implemented)")
+                    written = {key_of(t) for x in _ast.walk(st_) if isinstance(x, (_ast.Assign, _ast.AnnAssign, _ast.AugAssign)) for t in targets_of(x)}
+                    env = {k: v for k, v in env.items() if k not in written}
+                elif isinstance(st_, (_ast.With, _ast.AsyncWith)):
+                    env = flow(st_.body, env)
+                elif isinstance(st_, _ast.Try):
+                    o = flow(st_.body, env)
+                    # a handler may start from any state between the entry of the block and its end
+                    h_in = env if o is None else {k: env[k].join(o[k]) for k in env if k in o}
+                    outs = [flow(st_.orelse, o) if o is not None else None] + [flow(h.body, h_in) for h in st_.handlers]
+                    outs = [x for x in outs if x is not None]
+                    env = None if not outs else {k: v for k, v in outs[0].items() if all(k in x for x in outs)}
+                    if env is not None:
+                        for x in outs[1:]:
+                            env = {k: env[k].join(x[k]) for k in env}
+                        env = flow(st_.finalbody, env)
+                elif isinstance(st_, _ast.Return):
+                    exits.append((st_.lineno, env))
+                    if st_.value is not None:
+                        try:
+                            rets.append(ev(st_.value, env))
+                        except AnalysisError:
+                            rets.append(None)
+                    else:
+                        rets.append(None)
+                    return None
+                elif isinstance(st_, _ast.Raise):
+                    return None
+            return env
+
+        end = flow(fi.node.body, dict(env0))
+        if end is not None:
+            exits.append((fi.node.end_lineno, end))
+            rets.append(None)
+        return exits, rets
+
     for ci in [pci] + [c for c in repo.mro(pci)[1:]]:
         for fi in ci.methods.values():
-            assigns = [x for x in _ast.walk(fi.node) if isinstance(x, (_ast.Assign, _ast.AnnAssign, _ast.AugAssign))
-                       and any(key_of(t) == SN for t in (x.targets if isinstance(x, _ast.Assign) else [x.target]))]
+            assigns = [x for x in _ast.walk(fi.node) if isinstance(x, (_ast.Assign, _ast.AnnAssign, _ast.AugAssign)) and any(key_of(t) == SN for t in targets_of(x))]
             if not assigns or fi.name == "__init__":
                 continue
             n += 1
-            fold = lambda e, fi=fi, ci=ci: repo.fold_expr(e, fi.module, ci)
-            exits = []
-
-            def ev(e, env):
-                return expr_interval(fi, e, env, fold=fold)
-
-            def refine(test, env, truth):
-                """env restricted to the outcome `truth` of a comparison of a tracked value with a constant (else unchanged)"""
-                if isinstance(test, _ast.UnaryOp) and isinstance(test.op, _ast.Not):
-                    return refine(test.operand, env, not truth)
-                parts = None
-                if isinstance(test, _ast.Compare) and len(test.ops) > 1:     # a <= x < b  ==  (a <= x) and (x < b)
-                    seq = [test.left] + list(test.comparators)
-                    parts, conj = [_ast.copy_location(_ast.Compare(left=seq[i], ops=[test.ops[i]], comparators=[seq[i + 1]]), test) for i in range(len(test.ops))], True
-                elif isinstance(test, _ast.BoolOp):
-                    parts, conj = list(test.values), isinstance(test.op, _ast.And)
-                if parts is not None:
-                    if conj == truth:          # all parts have the outcome `truth`
-                        for p_ in parts:
-                            env = refine(p_, env, truth)
-                            if env is None:
-                                return None
-                        return env
-                    outs = [refine(p_, env, truth) for p_ in parts]   # at least one part has it
-                    outs = [o for o in outs if o is not None]
-                    if not outs:
-                        return None
-                    res = {k: v for k, v in outs[0].items() if all(k in o for o in outs)}
-                    for o in outs[1:]:
-                        res = {k: res[k].join(o[k]) for k in res}
-                    return res
-                if isinstance(test, _ast.Compare) and len(test.ops) == 1:
-                    l, r, op = test.left, test.comparators[0], test.ops[0]
-                    k = key_of(l)
-                    flip = False
-                    if k is None or k not in env:
-                        k, l, r, flip = key_of(r), r, l, True
-                    if k is not None and k in env:
-                        try:
-                            c = ev(r, env)
-                        except AnalysisError:
-                            return env
-                        if c.lo != c.hi:
-                            return env
-                        c = c.lo
-                        name = type(op).__name__
-                        if flip:
-                            name = {"Gt": "Lt", "GtE": "LtE", "Lt": "Gt", "LtE": "GtE"}.get(name, name)
-                        if not truth:
-                            name = {"Gt": "LtE", "GtE": "Lt", "Lt": "GtE", "LtE": "Gt", "Eq": "NotEq", "NotEq": "Eq"}.get(name, name)
-                        cur = env[k]
-                        lo, hi = cur.lo, cur.hi
-                        if name == "Gt":
-                            lo = max(lo, c + 1)
-                        elif name == "GtE":
-                            lo = max(lo, c)
-                        elif name == "Lt":
-                            hi = min(hi, c - 1)
-                        elif name == "LtE":
-                            hi = min(hi, c)
-                        elif name == "Eq":
-                            lo, hi = max(lo, c), min(hi, c)
-                        elif name == "NotEq":
-                            if lo == c:
-                                lo += 1
-                            if hi == c:
-                                hi -= 1
-                        if lo > hi:
-                            return None          # this outcome is impossible here
-                        env = dict(env)
-                        env[k] = Iv(lo, hi)
-                return env
-
-            def flow(stmts, env):
-                """env after the statements (None when every path has left the method)"""
-                for st_ in stmts:
-                    if env is None:
-                        return None
-                    if isinstance(st_, (_ast.Assign, _ast.AnnAssign)) and getattr(st_, "value", None) is not None:
-                        for t in (st_.targets if isinstance(st_, _ast.Assign) else [st_.target]):
-                            k = key_of(t)
-                            if k is None:
-                                continue
-                            try:
-                                env = dict(env)
-                                env[k] = ev(st_.value, env)
-                            except AnalysisError:
-                                if k == SN:
-                                    raise
-                                env.pop(k, None)
-                    elif isinstance(st_, _ast.AugAssign):
-                        k = key_of(st_.target)
-                        if k is not None:
-                            val = _ast.BinOp(left=_ast.copy_location(_ast.Attribute(value=_ast.Name(id="self", ctx=_ast.Load()), attr=k[5:], ctx=_ast.Load()), st_) if k.startswith("self.") else _ast.Name(id=k, ctx=_ast.Load()),
-                                             op=st_.op, right=st_.value)
-                            _ast.copy_location(val, st_)
-                            _ast.fix_missing_locations(val)
-                            try:
-                                env = dict(env)
-                                env[k] = ev(val, env)
-                            except AnalysisError:
-                                if k == SN:
-                                    raise
-                                env.pop(k, None)
-                    elif isinstance(st_, _ast.If):
-                        e1 = refine(st_.test, env, True)
-                        e2 = refine(st_.test, env, False)
-                        o1 = flow(st_.body, e1) if e1 is not None else None
-                        o2 = flow(st_.orelse, e2) if e2 is not None else None
-                        if o1 is None or o2 is None:
-                            env = o1 if o2 is None else o2
-                        else:
-                            env = {k: o1[k].join(o2[k]) for k in o1 if k in o2}
-                    elif isinstance(st_, (_ast.For, _ast.While, _ast.AsyncFor)):
-                        if any(key_of(t) == SN for x in _ast.walk(st_) if isinstance(x, (_ast.Assign, _ast.AnnAssign, _ast.AugAssign))
-                               for t in (x.targets if isinstance(x, _ast.Assign) else [x.target])):
-                            raise AnalysisError(f"{fi.qualname}: the sequence number is assigned inside a loop (no interval fixpoint implemented)")
-                    elif isinstance(st_, (_ast.With, _ast.AsyncWith)):
-                        env = flow(st_.body, env)
-                    elif isinstance(st_, _ast.Try):
-                        o = flow(st_.body, env)
-                        outs = [o] + [flow(h.body, env) for h in st_.handlers]
-                        outs = [x for x in outs if x is not None]
-                        env = None if not outs else {k: v for k, v in outs[0].items() if all(k in x for x in outs)}
-                        if env is not None:
-                            for x in outs[1:]:
-                                env = {k: env[k].join(x[k]) for k in env}
-                            env = flow(st_.finalbody, env)
-                    elif isinstance(st_, _ast.Return):
-                        exits.append((st_.lineno, env.get(SN)))
-                        return None
-                    elif isinstance(st_, _ast.Raise):
-                        return None
-                return env
-            try:
-                end = flow(fi.node.body, {SN: Iv(0, 0xFFFF)})
-                if end is not None:
-                    exits.append((fi.node.end_lineno, end.get(SN)))
-                bad = [(ln, iv) for ln, iv in exits if iv is None or iv.lo < 0 or iv.hi > 0xFFFF]
-                ok = not bad and bool(exits)
-                detail = f"self.sn in [0, 0xffff] at entry  =>  at the exits {[(ln, str(iv)) for ln, iv in exits][:4]}"
-            except AnalysisError:
-                raise
+            exits, _ = analyse(fi, ci, {SN: Iv(0, 0xFFFF)})
+            exits = [(ln, env.get(SN)) for ln, env in exits]
+            bad = [(ln, iv) for ln, iv in exits if iv is None or iv.lo < 0 or iv.hi > 0xFFFF]
+            ok = not bad and bool(exits)
+            detail = f"self.sn in [0, 0xffff] at entry  =>  at the exits {[(ln, str(iv)) for ln, iv in exits][:4]}"
             ctx.ob("sn/stays-16-bit", f"{fi.qualname} | {len(assigns)} assignment(s) to self.sn", ok, detail, f"{fi.module.relpath}:{(bad[0][0] if bad else assigns[0].lineno)}")
     ctx.require("sn/stays-16-bit", 1)
